@@ -45,6 +45,11 @@ CLAIMS = {
   text="Structural necessary conditions of type enforcement on every write: the bucket map is written only by HashSet/HashDelete/CloneFrom/MakeHash (all write routes funnel through HashSet); in HashSet the field type check dominates every mutation, its error (other than the not-a-symbol sentinel) is returned from a branch that mutates nothing; in TypeCheckField an undeclared field and a type mismatch reach an error on every path except the HasPrefix-guarded empty-slice exception; MakeHash returns the errors of the initial HashSets and of TypeCheckRecord, which checks every key; CloneFrom through a pointer is guarded by registered-type identity; typed re-binding stores only under an acceptance test and otherwise ends in an error. Does not decide that the type comparison is right for every field type, nor redefinition semantics.",
   note="Trusts go/ssa; fails closed when the routines lose the shapes read today.",
   ref="DESIGN.md §3 C17"),
+ "C18": dict(
+  technique="path analysis over go/ssa of the two path walkers (every path from lookup to yield/assign passes the privacy test or a package type test), shape check of the privacy predicate, who-may-call table for the unbounded scope walk",
+  text="Structural necessary conditions of package privacy: in Stack.nestedPathGetSet every path from the symbol lookup to a point that yields a value, assigns a member or descends into a hash passes a checked errIfPrivate on that hop's name, or takes the is-a-package edge; the hash walker is handed the package and, when it has one, checks every member it yields or assigns the same way; errIfPrivate is an error exactly when unicode.IsUpper of the first rune of the dot-stripped name is false; Stack.LookupSymbol is called only by the walker, closures' captured scopes and FindObject. Does not decide behaviour per program, nor printing of package values.",
+  note="Trusts go/ssa; fails closed when the walkers lose the shapes read today.",
+  ref="DESIGN.md §3 C18"),
 }
 NA_DEFAULT="rules not built yet (build in progress; see DESIGN.md §7)"
 NA = {}
